@@ -69,6 +69,27 @@ def all_exited(processes):
     return True
 
 
+def one_failed(processes):
+    """
+    Check if at least one process has exited with a non-zero exit code (it crashed or was killed)
+    """
+    for p in processes:
+        if p.exitcode is not None and p.exitcode != 0:
+            return True
+    return False
+
+
+def stop_all(processes):
+    """
+    Kill the processes that are still running and wait for all of them
+    """
+    for p in processes:
+        if p.is_alive():
+            p.kill()
+    for p in processes:
+        p.join()
+
+
 def run_realign(gaf, graph, fasta, output=None, cores=1):
     timers = StageTimer()
 
@@ -206,6 +227,14 @@ def realign_gaf(gaf, graph, fasta, output, cores=1):
                 try:
                     out_string_obj = align_queue.get(timeout=0.5)
                 except queue.Empty:  # queue throws Empty exception after timeout
+                    # a process that was killed may have died while holding the lock of the queue; the other
+                    # processes then block forever when they deliver their results, so we cannot wait for them
+                    if one_failed(processes):
+                        stop_all(processes)
+                        logger.error(
+                            "One of the processes had a none-zero exit code. One reason could be that one of the processes consumed too much memory and was killed"
+                        )
+                        sys.exit(1)
                     # check if all threads are still alive
                     if one_is_alive(processes):
                         continue
@@ -254,6 +283,11 @@ def realign_gaf(gaf, graph, fasta, output, cores=1):
             try:
                 out_string_obj = align_queue.get(timeout=0.1)
             except queue.Empty:
+                # see above: do not wait for the others when one process has failed
+                if one_failed(processes):
+                    stop_all(processes)
+                    logger.error("One of the processes had a none-zero exit code")
+                    sys.exit(1)
                 # check if all threads are still alive
                 if one_is_alive(processes):
                     continue
